@@ -3,6 +3,9 @@ package checks
 import (
 	"fmt"
 
+	"github.com/transparency-dev/witness/internal/persistence"
+	"github.com/transparency-dev/witness/verifmc/lspwrap"
+
 	"github.com/transparency-dev/witness/verifmc/ev"
 	"github.com/transparency-dev/witness/verifmc/uni"
 	"github.com/transparency-dev/witness/verifmc/wh"
@@ -210,6 +213,7 @@ func c20(tier string) int {
 	pre, mon := c20Monitor(run)
 	p.preStep = pre
 	runPlan(run, p, mon, unknownReqs)
+	c20Faults(run)
 	for _, c := range []string{wh.OK, wh.Unknown, wh.NoSig, wh.OldInvalid, wh.Stale, wh.RootMismatch, wh.BadProof} {
 		if run.HistGet("outcomes", c) == 0 {
 			run.Vacuous("outcome %q never occurred", c)
@@ -219,4 +223,66 @@ func c20(tier string) int {
 	run.Set("rule", fmt.Sprintf("explicit-state BFS (sizes 0..%d, main + forks at 0 and 3, both stores, single worker) over a two-log witness with a recording MetricFactory installed before the first witness is created; after every Update the delta of every counter x label is compared with the model: attempt +1 iff the log is known, success +1 iff accepted, invalid_consistency +1 iff refused for a bad proof, inconsistent_checkpoints +1 iff same size different root, nothing else moves. distinct_nontrivial = distinct (state, outcome, request)", n))
 	run.Assumption("counters are process-wide; the search runs with one worker so deltas are attributable to one call")
 	return run.Finish()
+}
+
+// c20Faults: a request that passes every check but whose store write fails is
+// an attempt, not a success (each accept path x both stores x a failing Set).
+func c20Faults(run *ev.Run) {
+	u := uni.New(ev.Seed(), 6, nil)
+	gen := wh.NewCPGen(u)
+	la := wh.LogCfg{Origin: logA() + "/c20-faults", Key: u.K1}
+	m := u.Main
+	mk := func(old, n int) wh.Req {
+		cp, meta := gen.Get(la, m, n, "plain")
+		return wh.Req{LogID: la.ID(), Old: uint64(old), CP: cp, Proof: m.Proof(old, n), Meta: meta}
+	}
+	paths := map[string][]wh.Req{
+		"first-use":         {mk(0, 3)},
+		"growth":            {mk(0, 3), mk(3, 5)},
+		"same-size-refresh": {mk(0, 3), mk(3, 3)},
+		"size-0-refresh":    {mk(0, 0), mk(0, 0)},
+	}
+	for _, store := range []string{"mem", "sql"} {
+		for name, reqs := range paths {
+			failing := false
+			e := wh.NewEnv(u, wh.Config{Store: store, Logs: []wh.LogCfg{la}, Wrap: func(p persistence.LogStatePersistence) persistence.LogStatePersistence {
+				return lspwrap.New(p, lspwrap.Hooks{Fault: func(op, id string) (error, bool) {
+					if failing && op == "w.Set" {
+						return errInjected, false
+					}
+					return nil, false
+				}})
+			}})
+			for _, r := range reqs[:len(reqs)-1] {
+				e.Do(r)
+			}
+			before := wh.Metrics.Snapshot()
+			failing = true
+			out := e.Do(reqs[len(reqs)-1])
+			failing = false
+			after := wh.Metrics.Snapshot()
+			e.Close()
+			run.Add("fault_cases", 1)
+			run.Add("transitions", 1)
+			run.Add("traces_validated_against_impl", 1)
+			run.Add("evaluations", 1)
+			run.Distinct("fault|" + store + "|" + name)
+			id := la.ID()
+			if out.Err == nil {
+				ev.Internal("C20 faults: the injected Set failure did not fail the update (%s/%s)", store, name)
+			}
+			for _, cn := range []string{"attempt", "success", "invalid", "inconsistent"} {
+				k := c20Names[cn] + "{" + id + "}"
+				want := int64(0)
+				if cn == "attempt" {
+					want = 1
+				}
+				if d := after[k] - before[k]; d != want {
+					run.Report(fmt.Sprintf("counter=%s outcome=store-write-failed path=%s delta=%d want=%d", c20Names[cn], name, d, want),
+						fmt.Sprintf("%s store, %s path: the store's Set failed (update refused with %v) but counter %s moved by %d, want %d", store, name, out.Err, k, d, want),
+						map[string]any{"kind": "counter-fault", "store": store, "path": name})
+				}
+			}
+		}
+	}
 }
